@@ -481,6 +481,7 @@ func vsLifeExec(sc vsLifeScn, ch vsChooser) (string, *vsSched) {
 				c.SetOnDisconnect(r.onDisconnect)
 			}
 			if handler != nil && !sc.setreq {
+				s.ghost("setreq-call")
 				c.SetOnRequest(handler)
 			}
 			r.initDone = true
@@ -488,6 +489,7 @@ func vsLifeExec(sc vsLifeScn, ch vsChooser) (string, *vsSched) {
 		})
 		if handler != nil && sc.setreq {
 			s.spawn("setreq", "setreq", true, func() bool { return r.initDone }, func() {
+				s.ghost("setreq-call")
 				c.SetOnRequest(handler)
 				s.ghost("setreq-done")
 			})
